@@ -25,8 +25,18 @@ Record ccase := {
    which equals no observed outcome) *)
 Definition c15_fuel : nat := 48.
 
+(* the hypotheses of the theorems of Properties/C15.v about a world, checked on every case: the parent loader
+   binds a type under the key of its name (shadow_wf); the members of a TypeSet have simple names (the model
+   binds them unconditionally, the code rejects other names when the TypeSet is initialised) *)
+Definition world_ok (w : world) : bool :=
+  forallb (fun x => str_eqb (fst x) (snd x)) (w_shadow w) &&
+  forallb (fun m => forallb (fun f => match f_content f with
+                                      | CTypeSet _ members => forallb (fun mn => valid_seg (lower mn)) members
+                                      | _ => true
+                                      end) (m_walk m)) (w_mods w).
+
 Definition c15_check (c : ccase) : bool :=
-  list_eqb outr_eqb (run (cc_world c) c15_fuel (cc_ops c)) (cc_outs c).
+  world_ok (cc_world c) && list_eqb outr_eqb (run (cc_world c) c15_fuel (cc_ops c)) (cc_outs c).
 
 Definition c15_mismatches (cs : list ccase) : list N := failing c15_check cs.
 
